@@ -109,15 +109,18 @@ def load(stream: IO, base_url: str | None = None) -> InventoryType:
 
 def _load_v1(stream: InventoryFileReader, base_url: str | None) -> InventoryType:
     """Load inventory data (format v1) from a stream."""
-    projname = stream.readline().rstrip()[11:]
-    version = stream.readline().rstrip()[11:]
+    # like the entries, the header lines can end with any line boundary
+    # that Sphinx (str.splitlines) recognises, not only a line feed
+    lines = stream.readlines()
+    projname = next(lines, "").rstrip()[11:]
+    version = next(lines, "").rstrip()[11:]
     invdata: InventoryType = {
         "name": projname,
         "version": version,
         "base_url": base_url,
         "objects": {},
     }
-    for line in stream.readlines():
+    for line in lines:
         name, objtype, location = line.rstrip().split(None, 2)
         # version 1 did not add anchors to the location
         domain = "py"
